@@ -247,6 +247,20 @@ func genC11(seed uint64, withSpec bool) *Scenario {
 		ns = 4
 	}
 	for i := 0; i < ns; i++ {
+		if r.Chance(200) {
+			// revealer: members required but absent, no defaults anywhere: any leftover "created from defaults"
+			// bookkeeping, stale required list or stale property map shows as a wrong verdict
+			req := []any{pick(r, propNames)}
+			if r.Chance(500) {
+				req = append(req, pick(r, propNames))
+			}
+			inst := M{}
+			if r.Chance(400) {
+				inst[pick(r, propNames)] = 1
+			}
+			add(Op{Kind: pick(r, []string{KAgainst, KAgainst, KSchemaRec}), Schema: js(M{"type": "object", "required": req}), Data: js(inst), OrderSeed: orderSeedFor(r)}, "suffix")
+			continue
+		}
 		if r.Chance(800) {
 			add(v.schemaOp(g, []string{KAgainst, KAgainst, KSchemaRec, KSchemaNR}), "suffix")
 		} else {
